@@ -650,6 +650,9 @@ func Returns(fn *ssa.Function) []*ssa.Return {
 	var out []*ssa.Return
 	Instrs(fn, func(in ssa.Instruction) {
 		if r, ok := in.(*ssa.Return); ok {
+			if fn.Recover != nil && r.Block() == fn.Recover {
+				return // the synthetic exit taken after a recovered panic (functions with defer): not a path of the source
+			}
 			out = append(out, r)
 		}
 	})
@@ -1376,4 +1379,33 @@ func DerivesFrom(root, target ssa.Value) bool {
 		return false
 	}
 	return walk(root)
+}
+
+// SitesOfFn returns the call sites (call, go, defer) in module functions whose static callee is target.
+func (c *Ctx) SitesOfFn(target *ssa.Function) []Site {
+	if target == nil {
+		return nil
+	}
+	var out []Site
+	for _, f := range c.ModuleFuncs() {
+		for _, ci := range CallsTo(f, target) {
+			out = append(out, Site{f, ci})
+			c.CallSites++
+		}
+	}
+	return out
+}
+
+// CallsTo returns the calls in fn whose static callee is target (generic instances match their origin).
+func CallsTo(fn, target *ssa.Function) []ssa.CallInstruction {
+	return Calls(fn, func(_ string, ci ssa.CallInstruction) bool {
+		cal := ci.Common().StaticCallee()
+		if cal == nil {
+			return false
+		}
+		if cal.Origin() != nil {
+			cal = cal.Origin()
+		}
+		return cal == target
+	})
 }
